@@ -76,7 +76,7 @@ def dec_value(key, v):
             # an aware date-time in a zone other than the UTC object itself (a UTC alias or a real zone): UNTIL has no TZID
             # parameter, so the instant can only be written in UTC
             import zoneinfo as _zi
-            d = datetime(*v["v"], tzinfo=_zi.ZoneInfo(v["tz"]))
+            d = datetime(*v["v"], tzinfo=_zi.ZoneInfo(v["tz"]), fold=v.get("fold", 0))
             return d, ("datetime", d.astimezone(timezone.utc).replace(tzinfo=None), True)
         d = datetime(*v["v"], tzinfo=timezone.utc if v["k"] == "utc" else None)
         return d, ("datetime", d.replace(tzinfo=None), v["k"] == "utc")
@@ -342,6 +342,12 @@ def rules(draw):
         y, m, d = draw(st.one_of(st.integers(1997, 2030), st.integers(1997, 2030), st.sampled_from([1, 9, 99, 999, 1000, 1601, 9999]))), draw(st.integers(1, 12)), draw(st.integers(1, 28))
         if k == "date":
             v = {"k": "date", "v": [y, m, d]}
+        elif k == "zoned" and draw(st.integers(0, 2)) == 0:
+            # a wall time that occurs twice (or not at all) in its zone: fold selects the instant
+            tz, wall = draw(st.sampled_from([("Europe/Berlin", [2021, 10, 31, 2, 30, 0]), ("Europe/Berlin", [2025, 10, 26, 2, 0, 0]), ("Europe/Berlin", [2025, 10, 26, 2, 59, 59]),
+                                             ("America/New_York", [2021, 11, 7, 1, 30, 0]), ("America/New_York", [2024, 11, 3, 1, 15, 0]),
+                                             ("Europe/Berlin", [2021, 3, 28, 2, 30, 0]), ("America/New_York", [2024, 3, 10, 2, 30, 0]), ("Australia/Lord_Howe", [2024, 4, 7, 1, 45, 0])]))
+            v = {"k": k, "v": wall, "tz": tz, "fold": draw(st.integers(0, 1))}
         elif k == "zoned":
             v = {"k": k, "v": [y, m, d, draw(st.integers(3, 23)), draw(st.integers(0, 59)), draw(st.integers(0, 59))],
                  "tz": draw(st.sampled_from(["Etc/UTC", "Zulu", "Etc/UTC", "Europe/Berlin", "America/New_York", "Asia/Kolkata"]))}
